@@ -94,6 +94,10 @@ Fixpoint starts_sorted (l : list entry) : bool :=
   | _ => true
   end.
 Definition clip1 (size : Z) (e : entry) : entry := set_se e (Z.max 0 (e_start e)) (Z.min size (e_stop e)).
+(* the single-contig clip since fc449e4 (arithmetics.intervals.clip): both ends are kept inside [0, size], so an
+   interval lying entirely outside the contig becomes an empty interval at the nearer end instead of an inverted one *)
+Definition clip2 (size : Z) (e : entry) : entry :=
+  set_se e (Z.min (Z.max 0 (e_start e)) size) (Z.max (Z.min size (e_stop e)) 0).
 Definition extend1 (n size : Z) (e : entry) : entry :=
   if e_fwd e then set_se e (e_start e) (Z.min (e_start e + n) size)
   else set_se e (Z.max (e_stop e - n) 0) (e_stop e).
@@ -132,11 +136,11 @@ Definition spec_mask (szs : list Z) (es : list entry) : list (list Z) :=
 Definition spec_merged (szs : list Z) (d : Z) (es : list entry) : list entry :=
   concat (map (fun c => merge1 d (on_chr es c)) (arange (len szs))).
 Definition spec_clip (szs : list Z) (es : list entry) : list entry :=
-  map (fun e => clip1 (size_of szs (e_chr e)) e) es.
+  map (fun e => clip2 (size_of szs (e_chr e)) e) es.
 Definition spec_extend (szs : list Z) (n : Z) (es : list entry) : list entry :=
   map (fun e => extend1 n (size_of szs (e_chr e)) e) es.
 Definition spec_windows (szs : list Z) (l r : Z) (es : list entry) : list entry :=
-  map (fun e => clip1 (size_of szs (e_chr e)) (set_se e (e_start e - l) (e_start e + r))) es.
+  map (fun e => clip2 (size_of szs (e_chr e)) (set_se e (e_start e - l) (e_start e + r))) es.
 (* the location of an unstranded interval is that of a '+' interval *)
 Definition spec_location (stranded : bool) (w : Z) (e : entry) : Z :=
   let fwd := negb stranded || e_fwd e in
@@ -322,8 +326,13 @@ Definition model_geo_sort (szs : list Z) (es : list entry) : res :=
   end.
 
 (* ---------- per-row operations: the size is looked up through the chromosome code ---------- *)
+(* GenomicIntervalsFull.clip.  At HEAD only one side of each end is clamped (an interval lying entirely beyond the
+   chromosome end comes out inverted); notes/C10.fix-4.diff clamps both like arithmetics.clip / Geometry.clip.
+   Switch for fix-4: replace the two bodies by  Z.min (Z.max 0 s) size  and  Z.max (Z.min size t) 0 . *)
+Definition m_clip_start (size s : Z) : Z := Z.max 0 s.
+Definition m_clip_stop (size t : Z) : Z := Z.min size t.
 Definition model_clip (szs : list Z) (es : list entry) : list entry :=
-  map (fun e => set_se e (Z.max 0 (e_start e)) (Z.min (size_of szs (e_chr e)) (e_stop e))) es.
+  map (fun e => set_se e (m_clip_start (size_of szs (e_chr e)) (e_start e)) (m_clip_stop (size_of szs (e_chr e)) (e_stop e))) es.
 Definition model_extend (szs : list Z) (n : Z) (es : list entry) : list entry :=
   map (fun e => if e_fwd e then set_se e (e_start e) (Z.min (e_start e + n) (size_of szs (e_chr e)))
                 else set_se e (Z.max (e_stop e - n) 0) (e_stop e)) es.
@@ -383,8 +392,6 @@ Definition m_entry_check (neg : bool) (size s t : Z) : Z :=
   if size <=? s then E_BOUNDS else if neg && (s <? 0) then E_BOUNDS else if negb (t <=? size) then E_ASSERT else 0.
 Definition m_global (o x : Z) : Z := x + o.
 Definition m_stop_fits (size t : Z) : bool := t <=? size.
-Definition m_clip_start (s : Z) : Z := Z.max 0 s.
-Definition m_clip_stop (size t : Z) : Z := Z.min size t.
 Definition m_geo_clip_start (size s : Z) : Z := Z.min (Z.max 0 s) size.
 Definition m_geo_clip_stop (size t : Z) : Z := Z.max (Z.min size t) 0.
 Definition m_extend_start (fwd : bool) (s t n : Z) : Z := if fwd then s else Z.max (t - n) 0.
